@@ -74,6 +74,11 @@ func ValidateInputDataDimUnity(data any) (err error) {
 			if len(sub) != dim {
 				return dimUnityErr
 			}
+
+			// siblings must also agree below the first level
+			if len(sub[0]) != len(v[0][0]) {
+				return dimUnityErr
+			}
 		}
 
 	case [][][][]float64:
@@ -89,6 +94,11 @@ func ValidateInputDataDimUnity(data any) (err error) {
 			}
 
 			if len(sub) != dim {
+				return dimUnityErr
+			}
+
+			// siblings must also agree below the first level
+			if len(sub[0]) != len(v[0][0]) || len(sub[0][0]) != len(v[0][0][0]) {
 				return dimUnityErr
 			}
 		}
